@@ -807,9 +807,14 @@ def gen_group(rng, kind, big=False):
         d_ = int(H[0][0].split("|")[0].split()[-1])
         offs = [Fr(rng.choice([1, -1]) * rng.choice([2 ** 16, 2 ** 20, 3 * 2 ** 18, 2 ** 22, 5 * 2 ** 19 + 1, 1000003])) for _ in range(d_)]
         if rng.random() < 0.3: offs[rng.randrange(d_)] = Fr(0)
+        # a third of the groups instead: features of very different SCALE (exact powers of two, 2^-34 .. 2^20): a non-constant feature of
+        # tiny spread is not a constant feature; the statistics / normalisers are scale-free
+        scl = [Fr(1)] * d_
+        if base in ("S", "V", "I") and rng.random() < 0.34:
+            offs = [Fr(0)] * d_; scl = [Fr(2) ** rng.choice([-34, -30, -28, -20, 0, 10, 20]) for _ in range(d_)]
         for l, rel in H:
             secs = l.split(" | "); vals = [fr(x) for x in secs[2].split()]
-            secs[2] = " ".join(tok(x + offs[i % d_]) for i, x in enumerate(vals))
+            secs[2] = " ".join(tok(x * scl[i % d_] + offs[i % d_]) for i, x in enumerate(vals))
             G.append((" | ".join(secs), rel))
     elif kind in ("D", "DW", "F"):
         K = rng.choice([2, 2, 3]); n = max(n, K + 1)
